@@ -26,6 +26,9 @@ CHECKS["C08"] = dict(design="4/C08", technique="TLA+ operational executor model 
 CHECKS["C09"] = dict(design="4/C09", technique="GqlSched with op=mutation: invariants Serial and TopOrder model-checked; behaviours replayed with per-step pending-set and invocation-order comparison",
     text="Same model with the serial continuation chain (Advance): TLC checks that a later top-level field is never started before the earlier one has settled (Serial), that top-level resolvers are invoked in document order (TopOrder) and termination; every mutation plan x completion order is replayed on the fake-pool thread-pool and private-loop asyncio runtimes comparing the pending set after every completion and the invocation order, with top-level selections also reached through fragments, duplicated through a later fragment, and served by root-object methods; blocking executors run the synchronous projection.",
     note="As C08.")
+CHECKS["C16"] = dict(design="4/C16", technique="trace validation: recorded instrumentation / middleware / resolver events judged by the TLA+ hook machine (GqlHooks) in TLC, over TLC-generated executions and every request outcome; canaries",
+    text="One recorder object implements Instrumentation, middleware and resolver wrapper; the event logs of TLC-generated executions (every completion order of bounded plans, queries and mutations, four executor/runtime configurations, 1-3 stacked instrumentations, 0-2 middlewares), of every non-execution outcome and of request sequences sharing one schema and runtime instance are judged by spec/GqlHooks.tla: stage hooks obey a stack discipline with starts in index order and ends in reverse, every resolved field sees fs -> middlewares (last listed outermost) -> resolver -> fe exactly once inside the execution stage, and every started stage ends. Canary traces must be rejected.",
+    note="Events are ordered by a sequence lock in the recorder; after an unexpected resolver exception only the prefix discipline is required.")
 NOT_YET = {
 }
 
